@@ -221,15 +221,12 @@ impl Model<Asn<Unresolved>> {
         iter: &mut Peekable<T>,
         delimiter: char,
     ) -> Result<String, ErrorKind> {
-        iter.next_separator_eq_or_err(delimiter)?;
-        let token = iter.next_or_err()?;
-
-        let first_text = token.text().unwrap_or_default();
+        let opening = iter.next_if_separator_and_eq(delimiter)?;
         let mut string = String::from(delimiter);
-        string.push_str(first_text);
+        // the content - which might be empty - starts right behind the opening delimiter
         let mut prev_loc = Location::at(
-            token.location().line(),
-            token.location().column() + first_text.chars().count(),
+            opening.location().line(),
+            opening.location().column() + 1,
         );
 
         loop {
